@@ -306,6 +306,8 @@ pub struct Build {
     pub fdt: Option<(u8, u32)>,
     pub cenc: Option<u8>,
     pub sct: Option<(u32, u32)>,
+    /// encode EXT_TIME with SCT-High only (HEL 2, Use 0x8000): legal per RFC 5651, never produced by flute
+    pub sct_high_only: bool,
     pub fti: Option<Fti>,
     pub extra_exts: Vec<Vec<u8>>,
     pub sbn: u32,
@@ -432,9 +434,14 @@ pub fn encode(b: &Build) -> Vec<u8> {
         out.extend_from_slice(&[HET_CENC, ce, 0, 0]);
     }
     if let Some((sec, frac)) = b.sct {
-        out.extend_from_slice(&[HET_TIME, 3, 0xC0, 0]);
-        out.extend_from_slice(&sec.to_be_bytes());
-        out.extend_from_slice(&frac.to_be_bytes());
+        if b.sct_high_only {
+            out.extend_from_slice(&[HET_TIME, 2, 0x80, 0]);
+            out.extend_from_slice(&sec.to_be_bytes());
+        } else {
+            out.extend_from_slice(&[HET_TIME, 3, 0xC0, 0]);
+            out.extend_from_slice(&sec.to_be_bytes());
+            out.extend_from_slice(&frac.to_be_bytes());
+        }
     }
     for x in &b.extra_exts {
         out.extend_from_slice(x);
@@ -540,6 +547,7 @@ pub fn to_build(d: &Decoded) -> Build {
         fdt: d.fdt,
         cenc: d.cenc,
         sct: d.sct,
+        sct_high_only: false,
         fti: d.fti.clone(),
         extra_exts: extra,
         sbn: d.sbn,
